@@ -5,7 +5,7 @@ use crate::objtree::{ObjectNode, ObjectTree};
 use crate::opcode::{BuiltinFunctionKind, ConsoleLogLevel};
 use crate::qtname::{self, FileNameRules, UniqueNameGenerator};
 use crate::tir;
-use crate::typedexpr::DescribeType as _;
+use crate::typedexpr::{DescribeType as _, TypeDesc};
 use crate::typemap::{Class, Method, TypeKind, TypeSpace};
 use itertools::Itertools as _;
 use std::collections::{HashMap, HashSet};
@@ -895,8 +895,34 @@ impl CxxCodeBodyTranslator {
                             .chain(formatted_args)
                             .join(" << ")
                     }
-                    BuiltinFunctionKind::Max => format!("std::max({})", formatted_args.join(", ")),
-                    BuiltinFunctionKind::Min => format!("std::min({})", formatted_args.join(", ")),
+                    BuiltinFunctionKind::Max | BuiltinFunctionKind::Min => {
+                        let name = if *f == BuiltinFunctionKind::Max {
+                            "max"
+                        } else {
+                            "min"
+                        };
+                        // Type of integer literal may be different from the other in C++ (e.g.
+                        // uint vs int), in which case the template argument can't be deduced.
+                        let const_integer = args.iter().find_map(|a| match a {
+                            tir::Operand::Constant(tir::Constant {
+                                value: tir::ConstantValue::Integer(v),
+                                ..
+                            }) => Some(*v),
+                            _ => None,
+                        });
+                        let ty_arg = args
+                            .iter()
+                            .find_map(|a| match (a.type_desc(), const_integer) {
+                                (TypeDesc::Concrete(ty), Some(v))
+                                    if ty != TypeKind::INT || i32::try_from(v).is_err() =>
+                                {
+                                    Some(format!("<{}>", ty.qualified_cxx_name()))
+                                }
+                                _ => None,
+                            })
+                            .unwrap_or_default();
+                        format!("std::{}{}({})", name, ty_arg, formatted_args.join(", "))
+                    }
                     BuiltinFunctionKind::Tr => format!(
                         "QCoreApplication::translate({context:?}, {args})",
                         context = self.tr_context,
